@@ -197,6 +197,7 @@ def check(repo: Repo) -> Result:
     handler_types(repo, res)
     finalize_rule(repo, res)
     wrapup_rule(repo, res)
+    range_helper_rule(repo, res)
     return res
 
 
@@ -280,6 +281,39 @@ def finalize_rule(repo, res):
     res.check(got.get("self.name") == f"getattr({obj}, 'name', None)", "name", fn.where(), "views inherit the name", found=got.get("self.name"), rid=r3)
 
 
+def range_helper_rule(repo, res):
+    """C07-R5: _sanitize_range is the one helper the handler typing treats as a black box ("converts the range
+    limits into the samples' units").  Its body is checked here: per axis i the two limits taken from position i of
+    the flat range are converted into units[i] - the same index everywhere - and stored in row i."""
+    r5 = res.rule("C07-R5", "histogram range limits of axis i are converted into the unit of axis i (index agreement inside _sanitize_range)", floor=4)
+    fn = repo.mod(AF).func("_sanitize_range")
+    res.fn(fn)
+    rng, units = fn.params[0], fn.params[1]
+    loops = [n for n in fn.body if isinstance(n, ast.For)]
+    if len(loops) != 1 or not isinstance(loops[0].target, ast.Name):
+        raise AnalysisError(f"{fn.where()}: per-axis loop not found")
+    lp = loops[0]
+    i = lp.target.id
+    res.check(norm(lp.iter) in (f"range(len({units}))", "range(ndim)") and (norm(lp.iter) != "range(ndim)" or any(isinstance(n, ast.Assign) and norm(n) == f"ndim = len({units})" for n in fn.body)), "loop-over-axes", fn.where(lp), "the loop runs over the axes (one per unit)", found=norm(lp.iter), rid=r5)
+    # every subscript of `units` inside the loop
+    subs = [n for n in ast.walk(lp) if isinstance(n, ast.Subscript) and norm(n.value) == units]
+    conv = []
+    for n in ast.walk(lp):
+        if isinstance(n, ast.Call) and isinstance(n.func, ast.Attribute) and n.func.attr in ("to_value", "to", "in_units") and n.args:
+            conv.append(n)
+    res.check(len(conv) == 2 and all(norm(c.args[0]) == f"{units}[{i}]" for c in conv), "convert-into-own-axis-unit", fn.where(conv[0]) if conv else fn.where(lp), f"both limits of axis {i} must be converted into {units}[{i}]: converting into another axis' unit relabels instead of rescaling whenever the axes use different units of one dimension", f"x.to_value({units}[{i}]) twice", [norm(c) for c in conv], rid=r5)
+    others = [n for n in subs if norm(n.slice) != i]
+    ok_other = True
+    for n in others:
+        # a constant index is acceptable only under the single-axis guard
+        guard = [g for g in ast.walk(lp) if isinstance(g, ast.If) and norm(g.test) in (f"len({units}) == 1", "ndim == 1") and any(x is n for b in g.body for x in ast.walk(b))]
+        ok_other &= norm(n.slice) == "0" and bool(guard)
+    res.check(ok_other, "constant-index-only-single-axis", fn.where(lp), f"{units}[0] may stand for the axis unit only when there is exactly one axis", found=[norm(n) for n in others], rid=r5)
+    rows = [n for n in ast.walk(lp) if isinstance(n, ast.Assign) and isinstance(n.targets[0], ast.Subscript) and norm(n.targets[0].slice) == i]
+    sl = [n for n in ast.walk(lp) if isinstance(n, ast.Subscript) and norm(n.value) == rng]
+    res.check(len(rows) == 1 and len(sl) == 1 and norm(sl[0].slice).replace(" ", "") in (f"2*{i}:2*({i}+1)", f"2*{i}:2*{i}+2"), "row-and-slice-index", fn.where(lp), f"limits are read from position {i} of the flat range and stored in row {i}", found=[norm(x) for x in sl + rows][:3], rid=r5)
+
+
 def wrapup_rule(repo, res):
     """C07-R4: at the end of __array_ufunc__ a bare array is produced only under
     `unit is None`; every other arm wraps with the variable that came from the unit rule."""
@@ -315,6 +349,12 @@ def wrapup_rule(repo, res):
             calls = [c for c in ast.walk(a.value) if isinstance(c, ast.Call) and norm(c.func) in ctors]
             ok &= len(calls) >= 1 and all(len(c.args) >= 2 and norm(c.args[1]) == "unit" for c in calls)
         res.check(ok, f"arm:{test}", fn.where(body[0]) if body else fn.where(), f"wrap-up arm `{test}` must wrap the result with the unit computed by the unit rule", "ctor(out_arr, unit)", [norm(a.value) for a in assigns], rid=r4)
+    # the out= target holds the same (scaled) numbers as the returned value: otherwise re-expressing an operand
+    # changes what the caller's buffer holds by more than re-expression
+    from rules.ufunc import UfuncAnchors, out_target_scaled
+
+    ok, where, conds = out_target_scaled(UfuncAnchors(repo))
+    res.check(ok, "out-target-scaled", where, "with out= given and a simplification coefficient != 1 (e.g. km/m) the out target is not multiplied by the coefficient on some path: the buffer's numbers depend on the units the operands were written in", "multiply(out, mul, out=out) on every such path", conds, path=conds, rid=r4)
     # every definition of `unit` is a unit-rule result
     allowed = (
         re.compile(r"^self\._ufunc_registry\[ufunc\]\(u\)\[1\]$"),
